@@ -44,3 +44,121 @@ pub struct Outcome {
     pub exhaustive: bool,
     pub extra: Value,
 }
+
+#[cfg(test)]
+mod selftest {
+    //! Tests of the reference oracles themselves (they are the trusted base of every monitor).
+    use crate::oracle::frame::{classify, scan, scan_all, Class};
+    use crate::oracle::{bits, crc, layout, msm, sig};
+
+    #[test]
+    fn crc24q_published_check_value() {
+        assert_eq!(crc::crc24q(b"123456789"), 0xCDE703);
+        assert_eq!(crc::crc24q(b""), 0);
+        // a real-world RTCM 1005 frame (RTKLIB test vector layout): header + checksum agree
+        let f = crc::frame(&[0x3E, 0xD0, 0x00, 0x03]);
+        assert_eq!(classify(&f), Class::Accept(4));
+        assert_eq!(f[0], 0xD3);
+        assert_eq!(&f[1..3], &[0, 4]);
+    }
+
+    #[test]
+    fn classifier_is_worded_like_c03() {
+        let f = crc::frame(&[1, 2, 3]);
+        assert_eq!(classify(&f), Class::Accept(3));
+        for t in 0..f.len() {
+            assert_eq!(classify(&f[..t]), if t == 0 { Class::RejectEither } else { Class::Incomplete }, "t={}", t);
+        }
+        let mut g = f.clone();
+        g[0] = 0xD2;
+        assert_eq!(classify(&g), Class::NotValid);
+        assert_eq!(classify(&g[..5]), Class::RejectEither);
+        let mut g = f.clone();
+        g[7] ^= 1;
+        assert_eq!(classify(&g), Class::NotValid);
+        // reserved bits do not influence acceptance
+        let r = crc::frame_with_reserved(&[1, 2, 3], 0x3F);
+        assert_eq!(classify(&r), Class::Accept(3));
+        // a suffix does not change acceptance
+        let mut h = f.clone();
+        h.extend_from_slice(&[9, 9, 9]);
+        assert_eq!(classify(&h), Class::Accept(3));
+    }
+
+    #[test]
+    fn scanner_is_worded_like_c05() {
+        let f = crc::frame(&[7; 5]);
+        let mut b = vec![0u8, 0xD3, 0x00, 0x00, 0x00, 0x00, 0x00, 1];
+        let off = b.len();
+        b.extend(&f);
+        // the 0xD3 at 1 announces L=0: complete candidate with a bad checksum -> skipped
+        assert_eq!(scan(&b), (off + f.len(), Some((off, off + f.len()))));
+        // incomplete earlier candidate wins
+        let mut c = vec![0xD3, 0x03, 0xFF];
+        c.extend(&f);
+        assert_eq!(scan(&c), (0, None));
+        // nothing: whole buffer
+        assert_eq!(scan(&[1, 2, 3]), (3, None));
+        assert_eq!(scan(&[]), (0, None));
+        let mut two = f.clone();
+        two.extend(&f);
+        two.push(0xD3);
+        let (fr, total) = scan_all(&two);
+        assert_eq!(fr, vec![(0, f.len()), (f.len(), 2 * f.len())]);
+        assert_eq!(total, 2 * f.len());
+    }
+
+    #[test]
+    fn bit_reference() {
+        let mut b = bits::BitBuf::new();
+        b.push(0b101, 3);
+        b.push(0xABC, 12);
+        b.push(1, 1);
+        let v = b.into_bytes();
+        assert_eq!(v, vec![0b1011_0101, 0b0111_1001]);
+        assert_eq!(bits::read(&v, 3, 12), 0xABC);
+        assert_eq!(bits::twos_pattern(-1, 5), 0b11111);
+        assert_eq!(bits::twos_value(0b10000, 5), -16);
+        assert_eq!(bits::sm_pattern(-3, 5), 0b10011);
+        assert_eq!(bits::sm_value(0b10000, 5), 0);
+        assert_eq!(bits::sm_value(0b11111, 5), -15);
+        assert!(bits::self_check_fast());
+    }
+
+    #[test]
+    fn signal_tables_and_masks() {
+        let n: usize = (0..7).map(|c| sig::positions(c).len()).sum();
+        assert_eq!(n, 73);
+        assert_eq!(sig::sig_to_pos(0, 1, 'C'), Some(2));
+        assert_eq!(sig::sig_to_pos(0, 2, 'W'), Some(10));
+        assert_eq!(sig::sig_to_pos(0, 5, 'X'), Some(24));
+        assert_eq!(sig::sig_to_pos(1, 1, 'P'), Some(3));
+        assert_eq!(sig::sig_to_pos(1, 2, 'C'), Some(8));
+        assert_eq!(sig::sig_to_pos(1, 2, 'P'), Some(9));
+        for c in 0..7 {
+            for p in sig::positions(c) {
+                let (b, a) = sig::pos_to_sig(c, p).unwrap();
+                assert_eq!(sig::sig_to_pos(c, b, a), Some(p));
+                assert!((2..=32).contains(&p));
+            }
+        }
+        let r = msm::msm_ref(&[5, 1], &[10, 2], &[(5, 2), (1, 10)]);
+        assert_eq!(r.sats, vec![1, 5]);
+        assert_eq!(r.sigs, vec![2, 10]);
+        assert_eq!(r.sat_mask, (1u64 << 63) | (1u64 << 59));
+        assert_eq!(r.sig_mask, (1u32 << 30) | (1u32 << 22));
+        assert_eq!(r.cell_mask_bits, vec![false, true, true, false]);
+        assert_eq!(r.cells, vec![(1, 10), (5, 2)]);
+    }
+
+    #[test]
+    fn layout_constants_are_consistent() {
+        for l in layout::LISTS {
+            assert!(l.count_bit + l.count_width <= l.elems_bit, "{}", l.number);
+            assert!(l.capacity < (1 << l.count_width) || l.capacity == (1 << l.count_width) - 1);
+            assert!(l.elems_bit + l.capacity * l.elem_bits <= 1023 * 8, "{} does not fit", l.number);
+        }
+        assert!(layout::is_msm(1071) && layout::is_msm(1137) && !layout::is_msm(1078) && !layout::is_msm(1070));
+        assert_eq!(layout::msm_constellation(1124), 5);
+    }
+}
